@@ -1,7 +1,8 @@
 (* Props/C39.v — property C39: bit-manipulation helpers compute their mathematical definitions.
    Only statements, [exact] of a lemma from Proofs/, and Print Assumptions.
-   All theorems are about Gen.bitfun, regenerated from /repo/ppci/utils/bitfun.py on every run. *)
-From PV Require Import Lib.Py Spec.BitsSpec Gen.bitfun Proofs.C39_bitfun.
+   All theorems are about Gen.bitfun (regenerated from /repo/ppci/utils/bitfun.py on every run) and
+   Gen.wasm_rt_bits (the bit-operation wrappers of /repo/ppci/wasm/execution/runtime.py). *)
+From PV Require Import Lib.Py Spec.BitsSpec Gen.bitfun Gen.wasm_rt_bits Proofs.C39_bitfun Proofs.C39_bitfun2.
 Open Scope Z_scope.
 
 Theorem c39_rotl : forall v count bits, 0 < bits -> 0 <= v < 2 ^ bits ->
@@ -54,10 +55,114 @@ Theorem c39_popcnt : forall v bits, 0 <= bits -> popcnt v bits = Ok (popcount bi
 Proof. exact popcnt_correct. Qed.
 Print Assumptions c39_popcnt.
 
+(* ---- count leading / trailing zeros: every v (negative = two's complement), every width *)
+Theorem c39_clz : forall fuel v bits, 1 <= bits -> (Z.to_nat bits < fuel)%nat ->
+  exists r, clz fuel v bits = Ok r /\ is_clz bits v r.
+Proof. exact clz_correct. Qed.
+Print Assumptions c39_clz.
+
+Theorem c39_ctz : forall fuel v bits, 0 <= bits -> (Z.to_nat bits < fuel)%nat ->
+  exists r, ctz fuel v bits = Ok r /\ is_ctz bits v r.
+Proof. exact ctz_correct. Qed.
+Print Assumptions c39_ctz.
+
+(* ---- ARM modified-immediate encoder *)
+Theorem c39_encode_imm32_ok : forall v x, 0 <= v < 2 ^ 32 -> encode_imm32 v = Ok x ->
+  0 <= x < 4096 /\ arm_imm_decode x = v.
+Proof. exact encode_imm32_ok. Qed.
+Print Assumptions c39_encode_imm32_ok.
+
+Theorem c39_encode_imm32_rejects : forall v, 0 <= v < 2 ^ 32 ->
+  ((exists c, encode_imm32 v = Diag c) <-> ~ arm_imm_representable v).
+Proof. exact encode_imm32_diag. Qed.
+Print Assumptions c39_encode_imm32_rejects.
+
+(* no other outcome (no internal error) on 32-bit inputs *)
+Theorem c39_encode_imm32_total : forall v, 0 <= v < 2 ^ 32 ->
+  (exists x, encode_imm32 v = Ok x) \/ encode_imm32 v = Diag 1.
+Proof. exact encode_imm32_total. Qed.
+Print Assumptions c39_encode_imm32_total.
+
+(* the encoder picks the smallest rotation among all representations *)
+Theorem c39_encode_imm32_smallest : forall v x rot imm8, 0 <= v < 2 ^ 32 -> encode_imm32 v = Ok x ->
+  0 <= rot < 16 -> 0 <= imm8 < 256 -> ror32 imm8 (2 * rot) = v -> x / 256 <= rot.
+Proof. exact encode_imm32_smallest. Qed.
+Print Assumptions c39_encode_imm32_smallest.
+
+(* ---- big-endian packing: the size base-256 digits of value mod 256^size, most significant first *)
+Theorem c39_value_to_bytes_big_endian : forall value size, 0 <= size ->
+  exists l, value_to_bytes_big_endian value size = Ok l /\ is_big_endian size value l.
+Proof. exact value_to_bytes_big_endian_correct. Qed.
+Print Assumptions c39_value_to_bytes_big_endian.
+
+(* ---- wasm runtime wrappers (signed operands): the n-bit operation on the two's-complement reading,
+   result returned as a signed n-bit number *)
+Theorem c39_i32_rotl : forall v cnt,
+  exists u, is_rotl 32 (unsigned_of 32 v) (cnt mod 32) u /\ i32_rotl v cnt = Ok (signed_of 32 u).
+Proof. exact i32_rotl_correct. Qed.
+Print Assumptions c39_i32_rotl.
+
+Theorem c39_i64_rotl : forall v cnt,
+  exists u, is_rotl 64 (unsigned_of 64 v) (cnt mod 64) u /\ i64_rotl v cnt = Ok (signed_of 64 u).
+Proof. exact i64_rotl_correct. Qed.
+Print Assumptions c39_i64_rotl.
+
+Theorem c39_i32_rotr : forall v cnt,
+  exists u, is_rotr 32 (unsigned_of 32 v) (cnt mod 32) u /\ i32_rotr v cnt = Ok (signed_of 32 u).
+Proof. exact i32_rotr_correct. Qed.
+Print Assumptions c39_i32_rotr.
+
+Theorem c39_i64_rotr : forall v cnt,
+  exists u, is_rotr 64 (unsigned_of 64 v) (cnt mod 64) u /\ i64_rotr v cnt = Ok (signed_of 64 u).
+Proof. exact i64_rotr_correct. Qed.
+Print Assumptions c39_i64_rotr.
+
+Theorem c39_i32_clz : forall fuel v, (32 < fuel)%nat ->
+  exists r, i32_clz fuel v = Ok r /\ is_clz 32 (unsigned_of 32 v) r.
+Proof. exact i32_clz_correct. Qed.
+Print Assumptions c39_i32_clz.
+
+Theorem c39_i64_clz : forall fuel v, (64 < fuel)%nat ->
+  exists r, i64_clz fuel v = Ok r /\ is_clz 64 (unsigned_of 64 v) r.
+Proof. exact i64_clz_correct. Qed.
+Print Assumptions c39_i64_clz.
+
+Theorem c39_i32_ctz : forall fuel v, (32 < fuel)%nat ->
+  exists r, i32_ctz fuel v = Ok r /\ is_ctz 32 (unsigned_of 32 v) r.
+Proof. exact i32_ctz_correct. Qed.
+Print Assumptions c39_i32_ctz.
+
+Theorem c39_i64_ctz : forall fuel v, (64 < fuel)%nat ->
+  exists r, i64_ctz fuel v = Ok r /\ is_ctz 64 (unsigned_of 64 v) r.
+Proof. exact i64_ctz_correct. Qed.
+Print Assumptions c39_i64_ctz.
+
+Theorem c39_i32_popcnt : forall v, i32_popcnt v = Ok (popcount 32 (unsigned_of 32 v)).
+Proof. exact i32_popcnt_correct. Qed.
+Print Assumptions c39_i32_popcnt.
+
+Theorem c39_i64_popcnt : forall v, i64_popcnt v = Ok (popcount 64 (unsigned_of 64 v)).
+Proof. exact i64_popcnt_correct. Qed.
+Print Assumptions c39_i64_popcnt.
+
+Theorem c39_extend_s : forall x,
+  i32_extend8_s x = Ok (signed_of 8 x) /\ i32_extend16_s x = Ok (signed_of 16 x) /\
+  i64_extend8_s x = Ok (signed_of 8 x) /\ i64_extend16_s x = Ok (signed_of 16 x) /\
+  i64_extend32_s x = Ok (signed_of 32 x).
+Proof. exact extend_correct. Qed.
+Print Assumptions c39_extend_s.
+
 (* non-vacuity: the hypotheses are met by concrete non-trivial values, and the conclusions
    compute to the expected numbers *)
 Example c39_nonvacuous :
   rotl 0x81 1 8 = Ok 3 /\ rotr 0x81 1 8 = Ok 0xC0 /\ reverse_bits 20 0x80 8 = Ok 1 /\
   reverse_bits 20 0xE1 8 = Ok 0x87 /\ sign_extend 0xFF 8 = Ok (-1) /\ to_signed 200 8 = Ok (-56) /\
-  popcnt 0xF1 8 = Ok 5 /\ rotate_left 0x80000001 4 = Ok 0x18.
+  popcnt 0xF1 8 = Ok 5 /\ rotate_left 0x80000001 4 = Ok 0x18 /\
+  clz 40 0x00010000 32 = Ok 15 /\ clz 40 (-1) 32 = Ok 0 /\ ctz 40 (-8) 32 = Ok 3 /\ ctz 40 0 32 = Ok 32 /\
+  encode_imm32 0xFF000000 = Ok 0x4FF /\ arm_imm_decode 0x4FF = 0xFF000000 /\ encode_imm32 0x101 = Diag 1 /\
+  encode_imm32 0xF000000F = Ok 0x2FF /\
+  value_to_bytes_big_endian 0x123456 4 = Ok [0; 0x12; 0x34; 0x56] /\
+  value_to_bytes_big_endian (-2) 2 = Ok [0xFF; 0xFE] /\
+  i32_rotl (-2147483648) 1 = Ok 1 /\ i32_rotr 1 1 = Ok (-2147483648) /\ i32_clz 40 (-1) = Ok 0 /\
+  i64_ctz 70 (-9223372036854775808) = Ok 63 /\ i32_popcnt (-1) = Ok 32 /\ i32_extend8_s 0x80 = Ok (-128).
 Proof. vm_compute. repeat split. Qed.
